@@ -2048,6 +2048,22 @@ static C04Res c17Once(const Instance& I, const ParamSet& cfg, int loadMode, uint
             R.set(std::string("copy-unequal.params.") + how, "copy has different parameters: " + firstDiff(pa, pb));
             break;
          }
+         {
+            // the position of the random generator that draws the perturbation shifts is part of what "same random seed" means: a copy
+            // whose generator is rewound or re-seeded follows a different path than its source in every later solve (hooked state,
+            // read through the opened private section; the unchanged copy constructor and operator= copy the generator verbatim)
+            const Random& ra = A->_solver.random;
+            const Random& rb = B->_solver.random;
+            if(count) S.count("c17.copy_random_state_compared");
+            if(count && (ra.lin_seed != Random(ra.getSeed()).lin_seed || ra.xor_seed != Random(ra.getSeed()).xor_seed)) S.count("c17.copy_random_state_compared.generator-advanced");
+            if(ra.seedshift != rb.seedshift || ra.lin_seed != rb.lin_seed || ra.xor_seed != rb.xor_seed || ra.mwc_seed != rb.mwc_seed || ra.cst_seed != rb.cst_seed)
+            {
+               R.set(std::string("copy-unequal.random-state.") + how, "the random generator of the copy is not in the state of the source's generator: source (shift,lin,xor,mwc,cst)=("
+                     + std::to_string(ra.seedshift) + "," + std::to_string(ra.lin_seed) + "," + std::to_string(ra.xor_seed) + "," + std::to_string(ra.mwc_seed) + "," + std::to_string(ra.cst_seed)
+                     + "), copy=(" + std::to_string(rb.seedshift) + "," + std::to_string(rb.lin_seed) + "," + std::to_string(rb.xor_seed) + "," + std::to_string(rb.mwc_seed) + "," + std::to_string(rb.cst_seed) + ")");
+               break;
+            }
+         }
          std::string sa = snapSol(*A, false), sb = snapSol(*B, false);
          if(sa != sb)
          {
